@@ -81,6 +81,7 @@ Definition charge_fee (required : option coin) (offered : option coin) (payer mo
   match required with
   | None => LOk s
   | Some req =>
+      if negb (0 <? c_amount req) then LOk s else     (* a stored zero fee charges nothing *)
       match offered with
       | None => LErr LInsufficient
       | Some off =>
